@@ -674,7 +674,7 @@ func stackRun(w *World, raceOnly bool) {
 				setName(req, dev)
 				val := newMsg(tr.resource)
 				fillMessage(val.ProtoReflect(), p, 2)
-			knownID(val, knownIDs, p)
+				knownID(val, knownIDs, p)
 				req.ProtoReflect().Set(tr.updField, protoreflect.ValueOfMessage(val.ProtoReflect()))
 				maskKind := t.Choose(4)
 				if f := req.ProtoReflect().Descriptor().Fields().ByName("update_mask"); f != nil && maskKind > 0 {
